@@ -7,10 +7,17 @@
     duplicate wins) > module scope, qualified imports by qualifier; duplicate declarations
     are errors. Refuted on the faithful model: a declaration does not shadow an unqualified
     import / built-in (K8), two unqualified imports make the binding order dependent (K9).
-    Carried by the correspondence (not proved): that the evaluator's by-name lookup in its
-    dynamic scope stack returns the value bound at the lexical binder (monitor O08 with a
-    lexical reference interpreter). *)
+    Second half, on the evaluator model (Model/Eval.v, tied to eval.rs on every run): for
+    every program whose trees are lexically closed (what the first half guarantees of
+    resolved trees; re-checked on the transcription of the real trees by the tie), the
+    code's evaluation -- by-name lookup through the whole dynamic stack of scopes, with any
+    caller stack underneath -- computes exactly the result of the lexical reference
+    semantics in which a function body sees nothing but its own scope, unless that
+    semantics reports an under-applied function (excluded by type checking; the tie runs the
+    lexical semantics on every accepted program and compares). The hypothesis is needed:
+    a witness shows the code reading the caller's binding on an unresolved tree. *)
 From Oal Require Import Resolve ResolveProofs.
+From Oal Require Eval EvalProofs.
 
 Theorem C08_stack_walk_is_lexical : forall t rest en acc,
   run (linearize t ++ rest) en acc =
@@ -71,3 +78,36 @@ Theorem C08_import_order_refuted :
                    sc_get (x, None) s <> sc_get (x, None) s').
 Proof. exact import_order_refuted. Qed.
 Print Assumptions C08_import_order_refuted.
+
+(** * evaluation honours the same binding *)
+Theorem C08_callee_cannot_see_caller : forall P, Eval.closed_prog P -> forall n o s e a xs,
+  Eval.closed xs e = true -> EvalProofs.bound xs (Eval.scopes s) -> EvalProofs.inv o (Eval.scopes s) ->
+  EvalProofs.sim o (Eval.scopes s) (Eval.eval true P n s e a) (Eval.eval false P n (EvalProofs.app_outer s o) e a).
+Proof. exact EvalProofs.eval_lexical. Qed.
+Print Assumptions C08_callee_cannot_see_caller.
+
+Theorem C08_evaluation_is_lexical : forall P n rs,
+  Eval.closed_prog P -> forallb (Eval.closed []) rs = true ->
+  match Eval.eval_program true P n rs with
+  | Eval.Panic p => p = Eval.P_arity \/ Eval.eval_program false P n rs = Eval.Panic p
+  | r => Eval.eval_program false P n rs = r
+  end.
+Proof. exact EvalProofs.eval_program_lexical. Qed.
+Print Assumptions C08_evaluation_is_lexical.
+
+Theorem C08_closed_check_sound : forall P, Eval.closed_progb P = true -> Eval.closed_prog P.
+Proof. exact EvalProofs.closed_progb_sound. Qed.
+Print Assumptions C08_closed_check_sound.
+
+Theorem C08_unresolved_tree_is_dynamic_refuted :
+  Eval.closed_progb EvalProofs.ex_open = false /\
+  Eval.eval_program true EvalProofs.ex_open 50 EvalProofs.ex_rs = Eval.Panic Eval.P_binding /\
+  exists r, Eval.eval_program false EvalProofs.ex_open 50 EvalProofs.ex_rs = Eval.Ok r.
+Proof. exact EvalProofs.open_tree_is_dynamic. Qed.
+Print Assumptions C08_unresolved_tree_is_dynamic_refuted.
+
+Example C08_closed_program_evaluates :
+  Eval.closed_progb EvalProofs.ex_P = true /\ forallb (Eval.closed []) EvalProofs.ex_rs = true /\
+  exists r, Eval.eval_program true EvalProofs.ex_P 50 EvalProofs.ex_rs = Eval.Ok r /\
+            Eval.eval_program false EvalProofs.ex_P 50 EvalProofs.ex_rs = Eval.Ok r.
+Proof. exact EvalProofs.ex_closed_evaluates. Qed.
